@@ -140,6 +140,19 @@ def evaluation_case(ctx, program, o, tag):
     # (a failing evaluation may have run selector bodies of later arguments while the cache key was computed,
     #  before the failing argument was reached: the subset relation is demanded for successful evaluations)
     sel = selector_datasets(program)
+    # datasets that are reachable ONLY through alternatives the reference decided against (unselected switch /
+    # case / overload branches, coalesce members after the first success, defaults of present options): their
+    # bodies must not run at all, not even for computing a cache key
+    avoid = {id(u) for u in ref.unselected}
+    only_unselected = set()
+    for u in ref.unselected:
+        only_unselected |= ref.reachable_datasets(u)
+    only_unselected -= ref.reachable_avoiding(program["root"], avoid)
+    forbidden = [p for p in extra if p[2:].split(":")[0] in only_unselected]
+    if forbidden and got[0] == "ok" and exp[0] == "ok":
+        ctx.violation("unselected-alternative-ran", f"bodies {forbidden} belong to alternatives the evaluation decided against (coalesce member after the first success / "
+                      f"unselected branch / default of a present option) yet they ran", W)
+        return
     tolerated = [p for p in extra if p[2:].split(":")[0] in sel]
     if tolerated:
         # a selector body (dispatch / bind source / case dispatch / Map iterable) may run while the cache key of a
